@@ -562,6 +562,88 @@ func (b *Bounds) carryCounters() {
 	})
 }
 
+// loopLowerBounds: in `for i := E; …; i++` (or i += positive constant) whose
+// body does not write i nor any variable of E, i >= E holds at the head of
+// every iteration (increments are guarded by the loop condition, so the
+// counter does not wrap).
+func (b *Bounds) loopLowerBounds(fs *ast.ForStmt) []*BFact {
+	info := b.info
+	init, ok := fs.Init.(*ast.AssignStmt)
+	if !ok || init.Tok != token.DEFINE || len(init.Lhs) != len(init.Rhs) || fs.Post == nil || fs.Cond == nil {
+		return nil
+	}
+	var stepped types.Object
+	switch post := fs.Post.(type) {
+	case *ast.IncDecStmt:
+		if post.Tok == token.INC {
+			stepped = ObjOf(info, post.X)
+		}
+	case *ast.AssignStmt:
+		if post.Tok == token.ADD_ASSIGN && len(post.Lhs) == 1 && len(post.Rhs) == 1 {
+			if k, isC := ConstInt(info, post.Rhs[0]); isC && k > 0 {
+				stepped = ObjOf(info, post.Lhs[0])
+			}
+		}
+	}
+	if stepped == nil || !b.local(stepped) {
+		return nil
+	}
+	// strict upper bound on the counter keeps the increment representable
+	if x, _, op, ok := CmpAtom(fs.Cond); !ok || op != token.LSS || ObjOf(info, x) != stepped {
+		return nil
+	}
+	var out []*BFact
+	for i, l := range init.Lhs {
+		if ObjOf(info, l) != stepped {
+			continue
+		}
+		it, et := b.Term(l), b.Term(init.Rhs[i])
+		if it == nil || et == nil || it.Typ == nil || et.Typ == nil || mentions(et, it.key) {
+			return nil
+		}
+		// nothing in the body writes the counter or a variable of E
+		written := map[types.Object]bool{}
+		ast.Inspect(fs.Body, func(n ast.Node) bool {
+			switch y := n.(type) {
+			case *ast.AssignStmt:
+				for _, x := range y.Lhs {
+					if o := rootObj(info, x); o != nil {
+						written[o] = true
+					}
+				}
+			case *ast.IncDecStmt:
+				if o := rootObj(info, y.X); o != nil {
+					written[o] = true
+				}
+			case *ast.RangeStmt:
+				for _, x := range []ast.Expr{y.Key, y.Value} {
+					if x != nil {
+						if o := rootObj(info, x); o != nil {
+							written[o] = true
+						}
+					}
+				}
+			}
+			return true
+		})
+		bad := written[stepped]
+		et.walk(func(t *BTerm) {
+			if t.K == TVar && written[t.Obj] {
+				bad = true
+			}
+			if t.K == TField || t.K == TElem {
+				bad = true
+			}
+		})
+		if bad {
+			return nil
+		}
+		f := cmpFact(it, token.GEQ, et, "loop counter "+stepped.Name()+" starts at "+b.F.Str(init.Rhs[i])+" and only grows")
+		out = append(out, f)
+	}
+	return out
+}
+
 // ---------------------------------------------------------------------------
 // terms from syntax
 
@@ -693,7 +775,12 @@ func (b *Bounds) constTable(e ast.Expr) *ConstTable {
 		return t
 	}
 	b.tables[o] = nil
-	if _, isMap := o.Type().Underlying().(*types.Map); !isMap || o.Exported() {
+	switch o.Type().Underlying().(type) {
+	case *types.Map, *types.Array, *types.Slice:
+	default:
+		return nil
+	}
+	if o.Exported() {
 		return nil
 	}
 	pk := b.P.ByPath[o.Pkg().Path()]
@@ -758,18 +845,32 @@ func (b *Bounds) constTable(e ast.Expr) *ConstTable {
 		return nil
 	}
 	t := &ConstTable{Obj: o, M: map[int64]int64{}}
+	_, isMap := o.Type().Underlying().(*types.Map)
+	next := int64(0)
 	for _, el := range lit.Elts {
 		kv, ok := el.(*ast.KeyValueExpr)
-		if !ok {
-			return nil
+		var k int64
+		val := el
+		if ok {
+			var okk bool
+			k, okk = ConstInt(info, kv.Key)
+			if !okk {
+				return nil
+			}
+			val = kv.Value
+		} else {
+			if isMap {
+				return nil
+			}
+			k = next // positional element of an array / slice literal
 		}
-		k, ok1 := ConstInt(info, kv.Key)
-		v, ok2 := ConstInt(info, kv.Value)
-		if !ok1 || !ok2 {
+		v, ok2 := ConstInt(info, val)
+		if !ok2 {
 			return nil
 		}
 		t.M[k] = v
 		t.Keys = append(t.Keys, k)
+		next = k + 1
 	}
 	b.tables[o] = t
 	return t
@@ -1214,9 +1315,39 @@ func (b *Bounds) transfer(fs FactSet, n ast.Node) {
 			if len(y.Lhs) == 1 {
 				b.assign(fs, y.Lhs[0], y.Rhs[0], y)
 			} else {
-				// parallel assignment: all right-hand sides are evaluated first
+				// parallel assignment: all right-hand sides are evaluated first;
+				// definitions are kept when no right-hand side mentions an
+				// assigned variable
+				var gen []*BFact
+				indep := true
+				var lts []*BTerm
+				for _, l := range y.Lhs {
+					lts = append(lts, b.Term(l))
+				}
+				for i, l := range y.Lhs {
+					lt := lts[i]
+					if lt == nil || lt.K != TVar || lt.Typ == nil {
+						continue
+					}
+					rt := b.Term(y.Rhs[i])
+					if rt == nil {
+						continue
+					}
+					for _, o := range lts {
+						if o != nil && mentions(rt, o.key) {
+							indep = false
+						}
+					}
+					gen = append(gen, b.eqFact(lt, rt, b.F.Str(y)+" ("+b.F.At(y)+")"))
+					_ = l
+				}
 				for _, l := range y.Lhs {
 					b.assign(fs, l, nil, y)
+				}
+				if indep {
+					for _, f := range gen {
+						fs[f.key] = f
+					}
 				}
 			}
 		case len(y.Rhs) == 1 && len(y.Lhs) > 1:
@@ -1481,6 +1612,9 @@ func (b *Bounds) edgeFacts(blk *cfg.Block, out FactSet) []FactSet {
 			if fs, ok := blk.Stmt.(*ast.ForStmt); ok {
 				for _, cf := range b.carry[fs] {
 					t[cf.key] = cf
+				}
+				for _, lf := range b.loopLowerBounds(fs) {
+					t[lf.key] = lf
 				}
 			}
 		}
